@@ -6,6 +6,7 @@ pub mod entropy;
 pub mod fuzz;
 pub mod fuzzrun;
 pub mod gen;
+pub mod isolate;
 pub mod props;
 pub mod refimpl;
 pub mod selftest;
